@@ -19,7 +19,11 @@ def place(js):
             proj.append(("d",))
         elif k == "f":
             proj.append(("f", e[1], e[3] if len(e) > 3 else ""))
-        elif k in ("i", "ci", "sub"):
+        elif k == "i":
+            proj.append(("i", "l", e[1]))
+        elif k == "ci":
+            proj.append(("i", "c", e[1], bool(e[2])))
+        elif k == "sub":
             proj.append(("i",))
         elif k == "dc":
             proj.append(("dc", e[1], e[3] if len(e) > 3 else ""))
